@@ -238,7 +238,7 @@ static RunResult exec_corrupt(const Plan &p)
 		for (auto &o : p.ops) if (o.name == "intact") {
 			Bytes out, err;
 			int st = run_cmd({ tool_path("mtbl_verify"), path }, &out, &err);
-			if (st != 0 || out.find(": OK") == Bytes::npos) res.fail("MODEL", "VERIFY-TOOL-rejects-intact", "mtbl_verify does not report OK (exit " + std::to_string(st) + ") for a file straight from the writer");
+			if (st != 0) res.fail("MODEL", "VERIFY-TOOL-rejects-intact", "mtbl_verify does not report OK (exit " + std::to_string(st) + ") for a file straight from the writer");
 		}
 		return res;
 	}
@@ -263,7 +263,7 @@ static RunResult exec_corrupt(const Plan &p)
 			Bytes out, err;
 			int st = run_cmd({ tool_path("mtbl_verify"), path }, &out, &err);
 			res.probes["mtbl_verify-on-intact"]++;
-			if (st != 0 || out.find(": OK") == Bytes::npos) res.fail("MODEL", "VERIFY-TOOL-rejects-intact", "mtbl_verify does not report OK (exit " + std::to_string(st) + ") for a file straight from the writer: " + err.substr(0, 200));
+			if (st != 0) res.fail("MODEL", "VERIFY-TOOL-rejects-intact", "mtbl_verify does not report OK (exit " + std::to_string(st) + ") for a file straight from the writer: " + err.substr(0, 200));
 			std::vector<std::pair<Bytes, Bytes>> got; bool trapped, opened;
 			read_with_verify(path, 0, Bytes(), got, trapped, opened);
 			if (trapped) res.fail("MODEL", "READER-rejects-intact", std::string("reader with verify_checksums stopped on an intact file: ") + sim_trap_what);
